@@ -91,3 +91,11 @@ Theorem C14_translated_io_tables :
   gen_pio_fields = [bs "read_count"; bs "write_count"; bs "read_bytes"; bs "write_bytes"; bs "read_chars"; bs "write_chars"].
 Proof. exact gen_io_tables_correct. Qed.
 Print Assumptions C14_translated_io_tables.
+
+(* the real kernel (live cases): fs/proc/fd.c reports the open(2) flags without the creation flags and with
+   O_LARGEFILE / the close-on-exec bit ([k_open_flags], validated against the running kernel on every run);
+   that word keeps the access mode and O_APPEND, so the mode string says how the file was opened *)
+Theorem C14_kernel_keeps_mode : forall req cloexec, 0 <= req ->
+  spec_mode (k_open_flags req cloexec) = spec_mode req.
+Proof. exact kernel_keeps_mode. Qed.
+Print Assumptions C14_kernel_keeps_mode.
